@@ -17,6 +17,7 @@ mod json;
 mod minimise;
 mod model;
 mod prng;
+mod probe32;
 mod run;
 mod spec;
 mod stats;
@@ -472,6 +473,28 @@ fn cmd_replay(a: &Args) -> i32 {
             return 2;
         }
     };
+    if let Some(p) = j.get("probe32") {
+        // a chain of the single-precision builder probe
+        let case = match probe32::Case32::from_json(p) {
+            Ok(c) => c,
+            Err(e) => {
+                eprintln!("replay: {}: {}", path, e);
+                return 2;
+            }
+        };
+        let mut counts = (0, 0);
+        return match probe32::eval_case(&case, true, &mut counts) {
+            Some(m) => {
+                println!("REPRODUCED class=builder-mismatch: {}", m.describe());
+                println!("VIOLATION property=C06 replay={}", path);
+                1
+            }
+            None => {
+                println!("NOT REPRODUCED: the chain in this file agrees with the builder contract on the current tree");
+                0
+            }
+        };
+    }
     let spec = match j.get("spec").ok_or("no spec".to_string()).and_then(spec::RunSpec::from_json) {
         Ok(s) => s,
         Err(e) => {
@@ -748,6 +771,74 @@ fn cmd_check(a: &Args) -> i32 {
         harness.extend(errs);
         println!("builder insertions (complete configuration + up to {} extra calls): {} chains, {:.1}s", plan.ins_extras, total.chains - before, t.elapsed().as_secs_f64());
     }
+    // 3b. builder half in single precision (f32, Complex<f32>): chains of <= 3 setters, completed
+    let mut probe32_reported = 0u64;
+    let mut probe32_stats = (0u64, 0u64, 0u64);
+    if enabled("b32") {
+        let units = probe32::units();
+        let t = std::time::Instant::now();
+        let results: Mutex<Vec<probe32::Probe32Result>> = Mutex::new(Vec::new());
+        let depth = if plan.thorough { 4 } else { 3 };
+        let _ = par(units.len(), workers, false, |i, _st, _errs| {
+            let (kind, dynamic, complex) = units[i];
+            let r = probe32::run_unit(kind, dynamic, complex, depth);
+            results.lock().unwrap().push(r);
+        });
+        let mut mism: Vec<probe32::Mismatch32> = Vec::new();
+        for r in results.into_inner().unwrap() {
+            probe32_stats.0 += r.chains;
+            probe32_stats.1 += r.calls;
+            probe32_stats.2 += r.built;
+            mism.extend(r.mismatches);
+        }
+        mism.sort_by(|a, b| (a.case.kind.idx(), a.case.complex, a.case.dynamic, a.case.ops.len()).cmp(&(b.case.kind.idx(), b.case.complex, b.case.dynamic, b.case.ops.len())));
+        println!(
+            "builder chains in single precision (<= {} calls + completion, 7 builders x {{Const<1>,Dyn(2)}} x {{f32,Complex<f32>}}): {} chains, {} builder calls, {} built, {:.1}s",
+            depth, probe32_stats.0, probe32_stats.1, probe32_stats.2, t.elapsed().as_secs_f64()
+        );
+        let mut seen: Vec<(usize, String)> = Vec::new();
+        for m in &mism {
+            let m = probe32::minimise32(m);
+            let key = (m.case.kind.idx(), format!("{}:{}", m.got.name(), m.want.name()));
+            if seen.contains(&key) || seen.len() >= 8 {
+                continue;
+            }
+            seen.push(key);
+            let _ = std::fs::create_dir_all(&a.replays);
+            let path = format!(
+                "{}/C06{}-{}-f32-builder-{}-{}.json",
+                a.replays.trim_end_matches('/'),
+                if cfg!(debug_assertions) { "-dbgassert" } else { "" },
+                seed,
+                m.case.kind.name(),
+                seen.len()
+            );
+            let doc = J::obj(vec![
+                ("property", J::s("C06")),
+                ("class", J::s(if m.got == model::Outcome::Panic { "builder-panic" } else { "builder-mismatch" })),
+                ("detail", J::S(m.describe())),
+                ("found_with_build", J::s(if cfg!(debug_assertions) { "dbgassert" } else { "release" })),
+                ("probe32", m.case.to_json()),
+            ]);
+            if std::fs::write(&path, doc.to_string_pretty()).is_err() {
+                harness.push(format!("cannot write {}", path));
+                continue;
+            }
+            let ok = std::env::current_exe()
+                .ok()
+                .and_then(|exe| std::process::Command::new(exe).arg("replay").arg(&path).output().ok())
+                .map(|o| o.status.code() == Some(1))
+                .unwrap_or(false);
+            if !ok {
+                harness.push(format!("single-precision builder mismatch did not reproduce from {}", path));
+                continue;
+            }
+            println!("violation class=builder-mismatch solver-signature=builder-mismatch-f32:{} : {}", m.case.kind.name(), m.describe());
+            println!("  chain: {}", m.case.to_json().to_string_compact());
+            println!("VIOLATION property=C06 replay={}", path);
+            probe32_reported += 1;
+        }
+    }
     if total.hook_clamped > 0 {
         *total.probes.entry("clamping_branch_ran").or_insert(0) += total.hook_clamped;
     }
@@ -801,7 +892,7 @@ fn cmd_check(a: &Args) -> i32 {
             sig_order.push(s);
         }
     }
-    let mut reported = 0u64;
+    let mut reported = probe32_reported;
     let mut known_matched = 0u64;
     let exe = std::env::current_exe().ok();
     for sig in sig_order.iter().take(12) {
@@ -875,6 +966,7 @@ fn cmd_check(a: &Args) -> i32 {
             alphabet: J::A(alphabet.iter().map(|o| o.to_json()).collect()),
             swarm_runs: if enabled("swarm") { plan.swarm_runs } else { 0 },
             f_groups,
+            probe32: probe32_stats,
         };
         let mut j = evidence::evidence_json(&total, &meta);
         if let Some(side) = &a.side_evidence {
@@ -941,6 +1033,84 @@ fn cmd_check(a: &Args) -> i32 {
 
 static LAST_PANIC: Mutex<String> = Mutex::new(String::new());
 
+// ---------------------------------------------------------------------------------------------
+// process aborts inside the code under test (a failed allocation aborts, it does not unwind)
+
+extern "C" {
+    fn signal(signum: i32, handler: usize) -> usize;
+    fn _exit(code: i32) -> !;
+}
+
+/// (replay directory, seed, path of the file being replayed if this is a replay)
+static ABORT_CTX: Mutex<(String, u64, Option<String>)> = Mutex::new((String::new(), 0, None));
+
+extern "C" fn on_abort(_sig: i32) {
+    // The thread that aborted runs this. It is about to die anyway, so the usual rules for signal
+    // handlers are relaxed: small allocations and a write to stdout are attempted, and whatever
+    // happens the process ends here.
+    let (dir, seed, replaying) = ABORT_CTX.try_lock().map(|g| g.clone()).unwrap_or((String::from("replays"), 0, None));
+    let (inside, fired, run) = run::watch::current();
+    let (spec, budgets, phase) = match (inside, run) {
+        (true, Some((s, b))) => (Some(s), b, if fired { "after-fault" } else { "no-fault" }),
+        _ => match explore_b::current_chain_spec() {
+            Some(s) => (Some(s), vec![run::Budget { max_calls: 2_000, max_polls: 2_000 }], "builder"),
+            None => (None, Vec::new(), "unknown"),
+        },
+    };
+    if let Some(path) = replaying {
+        if phase == "no-fault" {
+            println!("the run aborted the process; no fault had fired in it, which C06 does not speak about");
+            unsafe { _exit(2) }
+        }
+        println!("REPRODUCED class=abort: the run aborted the process (allocation failure or abort() inside the crate)");
+        println!("VIOLATION property=C06 replay={}", path);
+        unsafe { _exit(1) }
+    }
+    let n = flush_pending(&dir, seed);
+    match spec {
+        Some(spec) => {
+            let _ = std::fs::create_dir_all(&dir);
+            let path = format!("{}/C06-{}-abort-{}.json", dir.trim_end_matches('/'), seed, phase);
+            let j = J::obj(vec![
+                ("property", J::s("C06")),
+                ("class", J::s("abort")),
+                ("detail", J::s("this run aborted the whole process (a failed allocation or an abort() inside the crate); it cannot be caught, minimised or continued")),
+                ("seed", J::U(seed)),
+                ("found_with_build", J::s(if cfg!(debug_assertions) { "dbgassert" } else { "release" })),
+                ("fault_had_fired", J::Bool(phase == "after-fault")),
+                ("phase", J::s(phase)),
+                ("spec", spec.to_json()),
+                ("budgets", run::budgets_to_json(&budgets)),
+            ]);
+            let _ = std::fs::write(&path, j.to_string_pretty());
+            if phase == "no-fault" {
+                eprintln!("HARNESS-ERROR: a run aborted the process (allocation failure?) although no fault had fired in the instance being driven: outside C06, and the exploration cannot continue; run written to {}", path);
+                unsafe { _exit(if n > 0 { 1 } else { 2 }) }
+            }
+            println!(
+                "violation class=abort : {} the crate aborted the process (a panic would at least unwind)",
+                if phase == "builder" { "during a builder call" } else { "after the derivative of the instance being driven had returned Err," }
+            );
+            println!("  run: {}", spec.to_json().to_string_compact());
+            println!("VIOLATION property=C06 replay={}", path);
+            unsafe { _exit(1) }
+        }
+        None => {
+            eprintln!("HARNESS-ERROR: the process aborted outside any simulated run");
+            unsafe { _exit(if n > 0 { 1 } else { 2 }) }
+        }
+    }
+}
+
+fn install_abort_handler(a: &Args) {
+    if let Ok(mut g) = ABORT_CTX.lock() {
+        *g = (a.replays.clone(), a.seed, if a.cmd == "replay" { a.file.clone() } else { None });
+    }
+    unsafe {
+        signal(6, on_abort as usize);
+    }
+}
+
 fn main() {
     // panics inside simulated calls are caught and judged by the simulator; keep stderr quiet,
     // but remember the last one so that a panic of the harness itself can be reported
@@ -956,6 +1126,7 @@ fn main() {
             std::process::exit(2);
         }
     };
+    install_abort_handler(&a);
     let code = std::panic::catch_unwind(std::panic::AssertUnwindSafe(|| match a.cmd.as_str() {
         "check" => cmd_check(&a),
         "replay" => cmd_replay(&a),
